@@ -364,6 +364,13 @@ def r06h(ctx, run):
     c11.r11d(ctx, run)
 
 
+def r06i(ctx, run):
+    """what is recorded while the statements of a body are inferred survives the interruptions of that inference: with `expected_tys` gone, the final
+    pass combines the breaks of an annotated block without its annotation and panics in replace_weak_tys (shared with C09 R09.k)"""
+    import c09
+    c09.r09k(ctx, run)
+
+
 def r06f(ctx, run):
     """input_snippet is total: evaluated from its source for every shape of (file length, first line, span, lines after the span) that its
     arithmetic distinguishes and for every pair of columns a position can have (0 ..= line length: the position of the newline / end of
@@ -532,6 +539,7 @@ def rules(ctx):
         Rule("R06.b", "every todo!()/unimplemented!() reachable from main is triaged; new reachable sites are violations", 3, r06b),
         Rule("R06.d", "const evaluation sites that panic without a value only see kinds const_data can evaluate (classifier vs evaluator, belief/use)", 3, r06d),
         Rule("R06.e", "the renderer's inclusive end position never precedes the start (empty ranges)", 2, r06e),
+        Rule("R06.i", "tables filled while a statement is inferred survive the interruptions of the body's inference (shared with C09 R09.k)", 1, r06i),
         Rule("R06.h", "variants of one enum get pairwise distinct discriminants (a duplicate panics Cranelift's Switch; shared with C11 R11.d)", 1, r06h),
         Rule("R06.g", "a data object is defined once: fresh name or memoised creation at every create_global_data site", 4, r06g),
         Rule("R06.f", "the snippet renderer is total: no unsigned subtraction below zero and no slice beyond a line, for every range shape and column (newline position included)", 1, r06f),
